@@ -13,6 +13,8 @@ pub struct EncCfg {
     pub length_bits: usize,
     pub stm: Cfm,
     pub strf: Cfm,
+    /// further crypt filters listed in CF under their own names (selected only by per-stream Crypt overrides)
+    pub extra: Vec<(Vec<u8>, Cfm)>,
     pub encrypt_metadata: bool,
     pub p: i32,
     /// prepared passwords (PDFDoc bytes for R<=4, SASLprep UTF-8 for R>=5)
@@ -104,6 +106,9 @@ pub fn encdict_obj(cfg: &EncCfg, d: &EncDict) -> RObj {
         };
         add(nm(cfg.stm), cfg.stm, &mut cf);
         add(nm(cfg.strf), cfg.strf, &mut cf);
+        for (n, c) in &cfg.extra {
+            add(&String::from_utf8_lossy(n), *c, &mut cf);
+        }
         e.push((k("CF"), RObj::Dict(cf)));
         e.push((k("StmF"), name(nm(cfg.stm))));
         e.push((k("StrF"), name(nm(cfg.strf))));
@@ -158,6 +163,11 @@ pub fn stream_cfm(cfg: &EncCfg, sd: &[(Vec<u8>, RObj)]) -> Cfm {
     for c in [cfg.stm, cfg.strf] {
         if c != Cfm::Identity && nm == listed(c) {
             return c;
+        }
+    }
+    for (n, c) in &cfg.extra {
+        if *n == nm {
+            return *c;
         }
     }
     Cfm::Identity
@@ -257,6 +267,16 @@ pub fn parse_encdict(e: &[(Vec<u8>, RObj)], id0: &[u8]) -> Result<(EncCfg, EncDi
     // P is a 32-bit quantity; accept it written as signed or unsigned
     let p32 = p as u32 as i32;
     let encrypt_metadata = !matches!(RObj::dict_get(e, b"EncryptMetadata"), Some(RObj::Bool(false)));
+    let method = |f: &[(Vec<u8>, RObj)]| -> Result<Cfm, String> {
+        match RObj::dict_get(f, b"CFM") {
+            Some(RObj::Name(m)) if m == b"V2" => Ok(Cfm::Rc4),
+            Some(RObj::Name(m)) if m == b"AESV2" => Ok(Cfm::AesV2),
+            Some(RObj::Name(m)) if m == b"AESV3" => Ok(Cfm::AesV3),
+            Some(RObj::Name(m)) if m == b"None" => Ok(Cfm::Identity),
+            None => Ok(Cfm::Identity),
+            _ => Err("unknown CFM".into()),
+        }
+    };
     let filt = |kk: &str| -> Result<Cfm, String> {
         if v < 4 {
             return Ok(Cfm::Rc4);
@@ -271,16 +291,22 @@ pub fn parse_encdict(e: &[(Vec<u8>, RObj)], id0: &[u8]) -> Result<(EncCfg, EncDi
         }
         let Some(RObj::Dict(cf)) = RObj::dict_get(e, b"CF") else { return Err("no CF".into()) };
         let Some(RObj::Dict(f)) = RObj::dict_get(cf, &nm) else { return Err(format!("crypt filter {} not in CF", String::from_utf8_lossy(&nm))) };
-        match RObj::dict_get(f, b"CFM") {
-            Some(RObj::Name(m)) if m == b"V2" => Ok(Cfm::Rc4),
-            Some(RObj::Name(m)) if m == b"AESV2" => Ok(Cfm::AesV2),
-            Some(RObj::Name(m)) if m == b"AESV3" => Ok(Cfm::AesV3),
-            Some(RObj::Name(m)) if m == b"None" => Ok(Cfm::Identity),
-            None => Ok(Cfm::Identity),
-            _ => Err("unknown CFM".into()),
-        }
+        method(f)
     };
-    let cfg = EncCfg { v, r, length_bits, stm: filt("StmF")?, strf: filt("StrF")?, encrypt_metadata, p: p32, user_pw: vec![], owner_pw: vec![] };
+    // every crypt filter the dictionary lists can be selected by a per-stream Crypt override
+    let mut extra = vec![];
+    if v >= 4 {
+        if let Some(RObj::Dict(cf)) = RObj::dict_get(e, b"CF") {
+            for (n, f) in cf {
+                if let RObj::Dict(f) = f {
+                    if n != b"Identity" && n != b"FRC4" && n != b"StdCF" {
+                        extra.push((n.clone(), method(f)?));
+                    }
+                }
+            }
+        }
+    }
+    let cfg = EncCfg { v, r, length_bits, stm: filt("StmF")?, strf: filt("StrF")?, extra, encrypt_metadata, p: p32, user_pw: vec![], owner_pw: vec![] };
     let d = EncDict { v, r, length_bits, p: p32, encrypt_metadata, o: s("O"), u: s("U"), oe: s("OE"), ue: s("UE"), perms: s("Perms"), id0: id0.to_vec() };
     Ok((cfg, d))
 }
